@@ -16,7 +16,7 @@ import fsic
 import fsic.parser as fparser
 from gram import (Call, Env, Eq, Layout, Program, RefError, Var, Verb, classify, deps, functions_used, interp, render,
                   run_reference, walk)
-from symx.core import Ctx, Inconclusive, PathAbort, cur
+from symx.core import Ctx, Inconclusive, PathAbort, cur, timed_check
 from symx.values import F64, SBool, SFloat, SInt, _sf, fpval, model_float, model_int, to_ieee
 from symx.zseries import ZSeries
 
@@ -265,22 +265,22 @@ def _witness(ctx: Ctx, names: List[str], extra: list) -> Optional[dict]:
         if cap:
             s.add(Lz <= 12)
         t0 = time.time()
-        r = str(s.check())
+        r = timed_check(s, timeout_ms / 1000.0)
         ctx.stats.solver_s += time.time() - t0
         ctx.stats.queries[r] = ctx.stats.queries.get(r, 0) + 1
         return r, s
 
     mode = 'ieee'
-    r, s = attempt(True, True, 8000)
+    r, s = attempt(True, True, 5000)
     if r == 'unsat':
-        r, s = attempt(True, False, 8000)
+        r, s = attempt(True, False, 5000)
         if r == 'unsat':
             return None
     if r != 'sat':
         mode = 'uf-model'
-        r, s = attempt(False, True, 20000)
+        r, s = attempt(False, True, 10000)
         if r != 'sat':
-            r, s = attempt(False, False, 20000)
+            r, s = attempt(False, False, 10000)
         if r != 'sat':
             raise Inconclusive('no witness: IEEE query undecided and UF query ' + r)
     m = s.model()
